@@ -83,13 +83,17 @@ func TimeStampToCdr(t *time.Time) cdrType.TimeStamp {
 	ts[3] = (byte(t.Hour()/10) << 4) | (byte(t.Hour() % 10))
 	ts[4] = (byte(t.Minute()/10) << 4) | (byte(t.Minute() % 10))
 	ts[5] = (byte(t.Second()/10) << 4) | (byte(t.Second() % 10))
+	// the sign is carried by octet 7, hh and mm are the BCD hours and minutes of the absolute offset
 	if tz >= 0 {
 		ts[6] = byte('+')
 	} else {
 		ts[6] = byte('-')
+		tz = -tz
 	}
-	ts[7] = (byte(tz/3600/10) << 4) | (byte(tz / 3600 % 10))
-	ts[8] = (byte(tz%3600/10) << 4) | (byte(tz % 3600 % 10))
+	tzHour := tz / 3600
+	tzMinute := tz % 3600 / 60
+	ts[7] = (byte(tzHour/10) << 4) | (byte(tzHour % 10))
+	ts[8] = (byte(tzMinute/10) << 4) | (byte(tzMinute % 10))
 	cdrTimeStamp := cdrType.TimeStamp{
 		Value: ts,
 	}
